@@ -137,6 +137,15 @@ def phi(name, n):
     return ast.Name(id='%s@phi%d' % (name, n), ctx=ast.Load())
 
 
+def _element(v, i):
+    """v[i] for a constant i, looking through conditional expressions over displays"""
+    if isinstance(v, ast.IfExp):
+        return ast.IfExp(test=v.test, body=_element(v.body, i), orelse=_element(v.orelse, i))
+    if isinstance(v, (ast.Tuple, ast.List)) and not any(isinstance(x, ast.Starred) for x in v.elts) and -len(v.elts) <= i < len(v.elts):
+        return v.elts[i]
+    return ast.Subscript(value=v, slice=ast.Constant(value=i), ctx=ast.Load())
+
+
 def _same_self(bind_self, call):
     """the callee's ``self`` is the caller's: self.m(...) or Class.m(self, ...)"""
     if isinstance(bind_self, ast.Name) and bind_self.id == 'self':
@@ -522,10 +531,15 @@ class Walker:
                         for j, tt in enumerate(t.elts[k + 1:]):
                             self.assign(tt, ast.Subscript(value=v, slice=ast.Constant(value=j - after), ctx=ast.Load()), st, d, node)
                 else:
+                    rawv = None
+                    if isinstance(node, ast.Assign) and len(node.targets) == 1 and node.targets[0] is t:
+                        rawv = self._ev_symbolic(node.value, st, d)
                     for i, tt in enumerate(t.elts):
                         if isinstance(tt, ast.Starred):
                             raise Undecided('two starred targets (line %d)' % node.lineno)
-                        self.assign(tt, ast.Subscript(value=v, slice=ast.Constant(value=i), ctx=ast.Load()), st, d, node)
+                        self.assign(tt, _element(v, i), st, d, node)
+                        if rawv is not None and isinstance(tt, ast.Attribute) and st.effects and st.effects[-1].kind == 'store_attr' and st.effects[-1].name == tt.attr:
+                            st.effects[-1].raw = _element(rawv, i)
         elif isinstance(t, ast.Attribute):
             obj = self.ev(t.value, st, d)
             eff = Eff('store_attr', node, obj=obj, name=t.attr, value=v, depth=d)
@@ -1029,6 +1043,17 @@ class _Ev:
             return copy.deepcopy(self.st.heap[k])
         # a literal table indexed on the spot: {k1: a, k2: b}[key]
         d, key = new.value, new.slice
+        tabs = getattr(self.w, 'module_tables', None)
+        if isinstance(d, ast.Name) and tabs is not None and getattr(self.w, 'module', None) and d.id not in self.st.env and not isinstance(key, ast.Slice):
+            t_ = tabs(self.w.module).get(d.id)
+            if t_ is not None:
+                d = t_          # a constant table of the module, named
+        # (x if c else y)[i] is (x[i] if c else y[i]); a display indexed by a constant is its element
+        if isinstance(d, ast.IfExp) and isinstance(key, ast.Constant):
+            return self.v_IfExpValue(d, key)
+        if isinstance(d, (ast.Tuple, ast.List)) and isinstance(key, ast.Constant) and isinstance(key.value, int) and not isinstance(key.value, bool) \
+                and not any(isinstance(x, ast.Starred) for x in d.elts) and -len(d.elts) <= key.value < len(d.elts):
+            return d.elts[key.value]
         if isinstance(d, ast.Dict) and d.keys and all(isinstance(x, ast.Constant) for x in d.keys):
             ks = [x.value for x in d.keys]
             if isinstance(key, ast.Constant):
@@ -1039,8 +1064,20 @@ class _Ev:
                 byk = dict(zip(ks, d.values))
                 # (an index that is not a bool would be a KeyError: the conditional form assumes it is)
                 if is_boolean_expr(key):
+                    while isinstance(key, ast.Call) and isinstance(key.func, ast.Name) and key.func.id == 'bool' and len(key.args) == 1 and not key.keywords:
+                        key = key.args[0]
                     return ast.IfExp(test=key, body=byk[True], orelse=byk[False])
         return new
+
+    def v_IfExpValue(self, d, key):
+        def pick(x):
+            if isinstance(x, ast.IfExp):
+                return ast.IfExp(test=x.test, body=pick(x.body), orelse=pick(x.orelse))
+            if isinstance(x, (ast.Tuple, ast.List)) and isinstance(key.value, int) and not isinstance(key.value, bool) \
+                    and not any(isinstance(y, ast.Starred) for y in x.elts) and -len(x.elts) <= key.value < len(x.elts):
+                return x.elts[key.value]
+            return ast.Subscript(value=x, slice=key, ctx=ast.Load())
+        return pick(d)
 
     def v_Slice(self, e, cond):
         # x[a:None] is x[a:]
@@ -1055,6 +1092,8 @@ class _Ev:
 
     def v_IfExp(self, e, cond):
         t = self.v(e.test, cond)
+        while isinstance(t, ast.Call) and isinstance(t.func, ast.Name) and t.func.id == 'bool' and len(t.args) == 1 and not t.keywords:
+            t = t.args[0]           # bool(x) tested for truth is x tested for truth
         known = self.w.truth(t, self.st)
         if known is True:
             return self.v(e.body, cond)
